@@ -46,6 +46,7 @@ func cbEvString(tr []cpuEv) string {
 // cbClause decides the clause for one step; "" = holds
 func cbClause(tr []cpuEv, a, a1 uint32, reg map[uint32]bool, onwdm bool, wdmField byte) string {
 	why := "no event is a read of the fetch address PRK:PPC"
+	located := false // some split has the quiet prefix, the OnPC callback iff registered, and the fetch from a
 	for i := 0; i <= len(tr); i++ {
 		if i > 0 && tr[i-1].kind != 0 {
 			break // a callback inside the candidate interrupt-entry prefix: no later split can work either
@@ -62,6 +63,7 @@ func cbClause(tr []cpuEv, a, a1 uint32, reg map[uint32]bool, onwdm bool, wdmFiel
 		}
 		op := tr[j].v
 		rest := tr[j+1:]
+		located = true
 		if op == 0x42 {
 			want := 1
 			if onwdm {
@@ -92,6 +94,9 @@ func cbClause(tr []cpuEv, a, a1 uint32, reg map[uint32]bool, onwdm bool, wdmFiel
 		if ok {
 			return ""
 		}
+	}
+	if located {
+		return why
 	}
 	if reg[a] {
 		n := 0
